@@ -22,6 +22,9 @@ CHECKS = {
  'C33': dict(cat='proof', tech='deductive: loop-invariant proof of SortedSet._find_insertion for lists of any length; representation-invariant + whole-view postconditions (set algebra over symbolic integer elements, operand sizes unrolled) on every public SortedSet operation; OrderedMap operations against an insertion-ordered association list with an injective key serialization',
              text='The binary search is proved for any list length. Every SortedSet operation (add/remove/pop/contains/clear/copy/len/iteration/union/intersection/difference/symmetric difference, n-ary forms, operators, in-place operators, comparisons, construction) is verified for all element values with operand sizes up to 3/2 (thorough 4/3): result strictly ascending and its element set exactly the mathematical result, operands unchanged. OrderedMap: every operation for maps of up to 3 entries with symbolic keys/values, index invariant preserved. Elements are integers standing for any totally ordered type (A-ORDER).',
              ref='DESIGN.md §4 C33'),
+ 'C30': dict(cat='proof', tech='deductive: postconditions on the real BoundStatement.bind/_append_unset_value/routing_key, Statement._key_parts_packed/_set_routing_key and PreparedStatement.from_message/is_routing_key_index with abstract 4-byte column codecs; all marker-state assignments, both input forms and routing-key index sets enumerated as symbolic choices; bounded native enumeration with real Int32Type columns',
+             text='For 3 bind markers every assignment of {value, null, explicit UNSET, missing}, by name and positionally, per protocol version and routing-key index set, with symbolic values: same serialized values in marker order, UNSET only from v4, rejected at routing-key markers, extra values rejected. Routing key == single component or the length-prefixed composite for component lengths 0/1/3/256 (thorough 65535) with symbolic leading bytes; from_message index order for all marker/partition-key orders listed. The number of markers is fixed at 3 (stated bound).',
+             ref='DESIGN.md §4 C30'),
  'C31': dict(cat='proof', tech='deductive: lock-invariant proof of MonotonicTimestampGenerator.__call__ for arbitrary clock and history + frame scan',
              text='Lock invariant (all returned timestamps <= last) proved preserved by __call__ for an arbitrary prior state and clock reading; '
                   'strict monotonicity across threads follows for lock-respecting schedules; unprotected reads/writes of `last` fail an obligation.',
